@@ -96,3 +96,44 @@ Theorem prox_newton_gradient_sparse_eq_dense : forall (raw_grad : list R -> list
   = @pn_construct_grad R _ raw_grad X y w Xw ws.
 Proof. exact pn_construct_grad_sparse_eq_dense. Qed.
 Print Assumptions prox_newton_gradient_sparse_eq_dense.
+
+(* ProxNewton: the three sparse helper kernels of the direction kernel compute what the dense kernel computes with the dense
+   column the CSC arrays denote (the squared norm needs distinct stored rows: (a + b)^2 <> a^2 + b^2) *)
+Require Import SK.Lemmas.PnSparseHelpers.
+Theorem prox_newton_sparse_axpy_is_dense : forall n M j lo hi (Xd : list R) (diff : R),
+  col_bounds M j lo hi -> wf_col n M lo hi -> length Xd = n ->
+  @_update_X_delta_w R _ (cdata M) (cindptr M) (cindices M) Xd diff j
+  = Ok (vmap2 Rplus Xd (map (fun e => diff * e) (dense_col n M lo hi))).
+Proof. exact update_X_delta_w_is_dense_axpy. Qed.
+Print Assumptions prox_newton_sparse_axpy_is_dense.
+
+Theorem prox_newton_sparse_weighted_dot_is_dense : forall n M j lo hi (other weights : list R),
+  col_bounds M j lo hi -> wf_col n M lo hi -> length other = n -> length weights = n ->
+  @_sparse_weighted_dot R _ (cdata M) (cindptr M) (cindices M) j other weights
+  = Ok (vdot (dense_col n M lo hi) (vmap2 fmul weights other)).
+Proof. exact sparse_weighted_dot_is_dense. Qed.
+Print Assumptions prox_newton_sparse_weighted_dot_is_dense.
+
+Theorem prox_newton_sparse_squared_weighted_norm_is_dense : forall n M j lo hi (weights : list R),
+  col_bounds M j lo hi -> wf_col n M lo hi -> rows_distinct M lo hi -> length weights = n ->
+  @_sparse_squared_weighted_norm R _ (cdata M) (cindptr M) (cindices M) j weights
+  = Ok (vdot weights (vmap fsq (dense_col n M lo hi))).
+Proof. exact sparse_squared_weighted_norm_is_dense. Qed.
+Print Assumptions prox_newton_sparse_squared_weighted_norm_is_dense.
+
+(* ProxNewton: the WHOLE regenerated sparse descent-direction kernel (no intercept, subdiff strategy) equals the dense one on the
+   dense columns the CSC arrays denote (stored rows distinct), for any prox, Hessian and subdifferential score *)
+Require Import SK.Lemmas.PnSparseDirection.
+Theorem trajectory_sparse_eq_dense_prox_newton_direction :
+  forall (raw_hessian : list R -> list R -> res (list R)) (prox_1d : R -> R -> Z -> res R)
+    (subdiff : list R -> list R -> list Z -> res (list (Ext R))) (n : nat) (M : csc) (X : list (list R)) (y : list R),
+  (forall j, (0 <= j < Z.of_nat (length X))%Z ->
+     exists lo hi, col_bounds M j lo hi /\ wf_col n M lo hi /\ rows_distinct M lo hi /\ mcol X j = Ok (dense_col n M lo hi)) ->
+  (forall Xw h, length Xw = n -> raw_hessian y Xw = Ok h -> length h = n) -> mrows X = Z.of_nat n ->
+  forall w_epoch Xw_epoch grad_ws ws tol,
+  Forall (fun j => (0 <= j < Z.of_nat (length X))%Z) ws -> length Xw_epoch = n ->
+  @_descent_direction_s__fit_intercept_False__ws_strategy_subdiff R _ raw_hessian prox_1d subdiff
+      (cdata M) (cindptr M) (cindices M) y w_epoch Xw_epoch grad_ws ws tol
+  = @_descent_direction__fit_intercept_False__ws_strategy_subdiff R _ raw_hessian prox_1d subdiff X y w_epoch Xw_epoch grad_ws ws tol.
+Proof. exact descent_direction_sparse_eq_dense_subdiff. Qed.
+Print Assumptions trajectory_sparse_eq_dense_prox_newton_direction.
